@@ -127,6 +127,8 @@ class HeapMixin:
             return z3.If(v.term, z3.IntVal(1), z3.IntVal(0))
         if isinstance(v, VInt) and t == ty.ANY:
             return self.box_num(v.term)
+        if isinstance(v, VRef) and v.typ == ty.ANY and t in (ty.INT, ty.NUM):
+            return self.arith_term(v)
         if isinstance(v, VNum):
             if t == ty.ANY:
                 return self.box_num(v.term)
